@@ -530,6 +530,9 @@ func (fg *FuncGen) call(v *ssa.Call, c *ssa.CallCommon, instr ssa.Instruction) {
 			}
 		}
 	}
+	if con != nil && con.HasCallback {
+		fg.callbackModel(v, callee, con, c, args, pre, wmBefore)
+	}
 	if fg.g.IsRepoFunc(callee) && len(args) == len(callee.Params) {
 		rel, sorts := fg.g.retRel(callee)
 		var ts []string
@@ -822,7 +825,7 @@ func (fg *FuncGen) siteAsserts(v *ssa.Call, callee *ssa.Function, args []TTerm) 
 	if fg.c == nil || len(fg.c.Sites) == 0 {
 		return
 	}
-	name := callee.Name()
+	name := plainName(callee)
 	// ordinal of this call among calls to the same callee, in source order
 	if fg.siteOrd == nil {
 		fg.siteOrd = map[*ssa.Call]int{}
@@ -831,7 +834,7 @@ func (fg *FuncGen) siteAsserts(v *ssa.Call, callee *ssa.Function, args []TTerm) 
 			for _, in := range b.Instrs {
 				if c, ok := in.(*ssa.Call); ok {
 					if sc := c.Common().StaticCallee(); sc != nil {
-						byName[sc.Name()] = append(byName[sc.Name()], c)
+						byName[plainName(sc)] = append(byName[plainName(sc)], c)
 					}
 				}
 			}
@@ -845,7 +848,7 @@ func (fg *FuncGen) siteAsserts(v *ssa.Call, callee *ssa.Function, args []TTerm) 
 	}
 	ord := fg.siteOrd[v]
 	for _, sa := range fg.c.Sites {
-		if sa.Callee != name || (sa.N != 0 && sa.N != ord) {
+		if sa.Callee != name || (sa.N != 0 && sa.N != ord) || sa.Invariant {
 			continue
 		}
 		if fg.siteUsed == nil {
@@ -985,4 +988,186 @@ func (fg *FuncGen) resolveInBlock(name string, b *ssa.BasicBlock, before ssa.Ins
 		}
 	}
 	return nil
+}
+
+// callbackModel: a callee with a `callback` clause runs the function literal it is given an unknown number of times
+// on pairs of elements of a slice.  The caller states an invariant of that hidden loop (`at callee#n invariant`,
+// with cbSeen(k) = "element k has been handed to the literal" and cbElem(k) = element k before the call); it is
+// established for the empty set, preserved by one call of the literal (by the literal's own contract) on arbitrary
+// elements from an arbitrary state satisfying it, and assumed afterwards together with "every element was seen"
+// when the slice has at least two elements.
+func (fg *FuncGen) callbackModel(v *ssa.Call, callee *ssa.Function, con *Contract, c *ssa.CallCommon, args []TTerm, pre State, wmBefore string) {
+	if fg.c == nil || con.Callback[0] >= len(c.Args) || con.Callback[1] >= len(args) {
+		return
+	}
+	mc, ok := c.Args[con.Callback[0]].(*ssa.MakeClosure)
+	if !ok {
+		return
+	}
+	lit, ok := mc.Fn.(*ssa.Function)
+	if !ok {
+		return
+	}
+	var invs []*SiteAssert
+	ord := fg.siteOrd[v]
+	for _, sa := range fg.c.Sites {
+		if sa.Invariant && sa.Callee == plainName(callee) && (sa.N == 0 || sa.N == ord) {
+			invs = append(invs, sa)
+			if fg.siteUsed == nil {
+				fg.siteUsed = map[*SiteAssert]bool{}
+			}
+			fg.siteUsed[sa] = true
+		}
+	}
+	if len(invs) == 0 {
+		return
+	}
+	x := args[con.Callback[1]]
+	if x.Sort != "Slice" {
+		return
+	}
+	g := fg.g
+	qv := g.SeqFamily("Val")
+	elem := func(k string) TTerm {
+		return TTerm{S: "(gat " + fg.famIn(pre, qv) + " " + x.S + " " + k + ")", Sort: "Val"}
+	}
+	// captured variables: families and references
+	cellRefs := map[string][]string{}
+	var cellFams []string
+	for _, bnd := range mc.Bindings {
+		if pt, ok := bnd.Type().Underlying().(*types.Pointer); ok {
+			set := map[string]bool{}
+			g.typeFamilies(pt.Elem(), set)
+			for f := range set {
+				if _, seen := cellRefs[f]; !seen {
+					cellFams = append(cellFams, f)
+				}
+				cellRefs[f] = append(cellRefs[f], fg.valueOf(bnd).S)
+			}
+		}
+	}
+	sort.Strings(cellFams)
+	mkState := func(base State) State {
+		st := base.Copy()
+		for _, f := range cellFams {
+			before := fg.famIn(pre, f)
+			sym := fg.havocFam(st, f)
+			cond := "(< r " + wmBefore + ")"
+			for _, cr := range cellRefs[f] {
+				cond += " (not (= r " + cr + "))"
+			}
+			fg.emit("(assert (forall ((r Int)) (! (=> (and %s) (= (select %s r) (select %s r))) :pattern ((select %s r)))))", cond, sym, before, sym)
+		}
+		return st
+	}
+	envFor := func(st State, seen string) *Env {
+		env := fg.funcEnv(st, pre, nil)
+		for i, a := range args {
+			env.vars[fmt.Sprintf("arg%d", i)] = a
+		}
+		base := env.lookup
+		env.lookup = func(n string) (TTerm, bool) {
+			// a variable captured by the literal: the pointer to it (use cell(x) for its value)
+			for k, fv := range lit.FreeVars {
+				if fv.Name() == n && k < len(mc.Bindings) {
+					return TTerm{S: fg.valueOf(mc.Bindings[k]).S, Sort: "Int", T: fv.Type()}, true
+				}
+			}
+			if base != nil {
+				if t, ok := base(n); ok {
+					return t, true
+				}
+			}
+			if val := fg.resolveInBlock(n, v.Block(), v); val != nil {
+				return fg.valueOf(val), true
+			}
+			return TTerm{}, false
+		}
+		env.cbSeen = seen
+		env.cbElem = elem
+		return env
+	}
+	name := plainName(callee)
+	label := func(sa *SiteAssert) string {
+		if sa.C.Label != "" {
+			return sa.C.Label
+		}
+		return "inv"
+	}
+	// 1. establishment
+	for _, sa := range invs {
+		t := envFor(pre, "((as const (Array Int Bool)) false)").Tr(sa.C.E)
+		if fg.clauseFailed(sa.C) {
+			continue
+		}
+		fg.obl("cb.init", fmt.Sprintf("at.%s.%d.%s.init", name, ord, label(sa)), v.Pos(), pick(sa.C.Tags, fg.funcTags()), t.S, sa.C.Text)
+	}
+	// 2. one call of the literal from an arbitrary state satisfying the invariant
+	s1 := mkState(pre)
+	seen1 := fg.fresh("cbseen")
+	fg.emit("(declare-const %s (Array Int Bool))", seen1)
+	for _, sa := range invs {
+		t := envFor(s1, seen1).Tr(sa.C.E)
+		if fg.clauseFailed(sa.C) {
+			continue
+		}
+		fg.assume(t.S)
+	}
+	i, j := fg.fresh("cbi"), fg.fresh("cbj")
+	fg.emit("(declare-const %s Int)", i)
+	fg.emit("(declare-const %s Int)", j)
+	fg.assume(fmt.Sprintf("(and (<= 0 %s) (< %s (slen %s)) (<= 0 %s) (< %s (slen %s)))", i, i, x.S, j, j, x.S))
+	s2 := mkState(s1)
+	if lcon := g.Spec.Contracts[FuncKey(lit)]; lcon != nil {
+		env := fg.baseEnv(s2, s1)
+		env.assume = true
+		for k, p := range lit.Params {
+			if k == 0 {
+				env.vars[p.Name()] = elem(i)
+			} else if k == 1 {
+				env.vars[p.Name()] = elem(j)
+			}
+		}
+		for k, fv := range lit.FreeVars {
+			if k < len(mc.Bindings) {
+				b := fg.valueOf(mc.Bindings[k])
+				env.vars[fv.Name()] = TTerm{S: b.S, Sort: "Int", T: fv.Type()}
+			}
+		}
+		for _, en := range lcon.Ensures {
+			t := env.Tr(en.E)
+			if fg.clauseFailed(en) {
+				continue
+			}
+			fg.assume(t.S)
+		}
+	}
+	seen2 := fmt.Sprintf("(store (store %s %s true) %s true)", seen1, i, j)
+	for _, sa := range invs {
+		t := envFor(s2, seen2).Tr(sa.C.E)
+		if fg.clauseFailed(sa.C) {
+			continue
+		}
+		fg.obl("cb.pres", fmt.Sprintf("at.%s.%d.%s.pres", name, ord, label(sa)), v.Pos(), pick(sa.C.Tags, fg.funcTags()), t.S, sa.C.Text)
+	}
+	// 3. after the call: the invariant holds for the final state, and every element was seen when there are two or more
+	seen3 := fg.fresh("cbseen")
+	fg.emit("(declare-const %s (Array Int Bool))", seen3)
+	for _, sa := range invs {
+		t := envFor(fg.st, seen3).Tr(sa.C.E)
+		if fg.clauseFailed(sa.C) {
+			continue
+		}
+		fg.assume(t.S)
+	}
+	fg.assume(fmt.Sprintf("(=> (>= (slen %s) 2) (forall ((k Int)) (! (=> (and (<= 0 k) (< k (slen %s))) (select %s k)) :pattern ((select %s k)) :pattern (%s))))", x.S, x.S, seen3, seen3, elem("k").S))
+}
+
+// plainName: the function's name without the type arguments of a generic instantiation (SortFunc[[]any,any] -> SortFunc)
+func plainName(f *ssa.Function) string {
+	n := f.Name()
+	if i := strings.Index(n, "["); i > 0 {
+		n = n[:i]
+	}
+	return n
 }
